@@ -32,6 +32,7 @@ func (e *Enc) exec(ins ssa.Instruction, st *State) {
 			return
 		}
 		e.frameCheck(x, a, st)
+		e.onStore(x, v, st)
 		e.store(st, derefType(x.Addr.Type()), a.L[0], a.L[1], v)
 		return
 	case *ssa.MakeSlice:
@@ -182,6 +183,42 @@ func (e *Enc) exec(ins ssa.Instruction, st *State) {
 		return
 	}
 	e.abstract(fmt.Sprintf("%T", ins))
+}
+
+// onStore emits the obligations of the contract's onstore clauses that match this store.
+func (e *Enc) onStore(x *ssa.Store, v Val, st *State) {
+	if e.Ct == nil || len(e.Ct.OnStore) == 0 || e.pass != 2 {
+		return
+	}
+	target := ""
+	switch a := x.Addr.(type) {
+	case *ssa.FieldAddr:
+		if stt, ok := derefType(a.X.Type()).Underlying().(*types.Struct); ok {
+			if n, ok := types.Unalias(derefType(a.X.Type())).(*types.Named); ok {
+				target = n.Obj().Name() + "." + stt.Field(a.Field).Name()
+			}
+		}
+	case *ssa.IndexAddr:
+		if p, ok := a.X.(*ssa.Parameter); ok {
+			target = p.Name() + "[*]"
+		}
+	}
+	if target == "" {
+		return
+	}
+	for i, oc := range e.Ct.OnStore {
+		if oc.Target != target {
+			continue
+		}
+		vars := map[string]Val{}
+		for k, pv := range e.params {
+			vars[k] = pv
+		}
+		vars["value"] = v
+		env := &Env{e: e, vars: vars, st: st, old: e.entry, pkg: e.Pkg, allocPre: e.entry.Alloc, atBlock: x.Block()}
+		t := e.evalGoal(oc.Clause.Expr, env)
+		e.oblige("onstore", target+"."+clauseLabel(oc.Clause, i), x.Pos(), e.reachHere(), t, "at every store to "+target+": "+oc.Clause.Text)
+	}
 }
 
 // storeIter writes the position of a range-over-string iterator (its own heap component).
